@@ -722,7 +722,21 @@ pub(crate) fn decompress_block(
 /// Reads and decodes the footer from a file.
 fn read_footer(f: Arc<dyn File>, file_size: usize) -> Result<Footer> {
 	let buf = Footer::read_from(f, file_size)?;
-	Footer::decode(&buf)
+	let footer = Footer::decode(&buf)?;
+
+	// The footer is not covered by any checksum. Its block handles size the buffers the
+	// blocks are read into, so make sure they describe a region inside the file first.
+	for handle in [&footer.meta_index, &footer.index] {
+		let end = handle
+			.offset()
+			.checked_add(handle.size())
+			.and_then(|end| end.checked_add(BLOCK_COMPRESS_LEN + BLOCK_CKSUM_LEN));
+		if end.is_none_or(|end| end > file_size) {
+			return Err(Error::from(SSTableError::CorruptedBlockHandle));
+		}
+	}
+
+	Ok(footer)
 }
 
 /// Reads raw bytes at a block handle's location.
